@@ -2011,7 +2011,37 @@ impl Model {
                         }
                         vec![V::Int(-r)]
                     }
-                    ("-", x) if is_num(x) || matches!(x, V::Vector(_)) => return unknown("- destructure of non-int"),
+                    ("-", x) if is_num(x) => {
+                        if args.len() != 1 {
+                            return throw("type error: - can only destructure 1");
+                        }
+                        vec![crate::builtins::call_builtin(self, sc, "-", vec![x.clone()])?]
+                    }
+                    ("-", x) if matches!(x, V::Vector(_)) => return unknown("- destructure of vector"),
+                    // k * x / x * k: exact quotient by an integer literal
+                    ("*", V::Int(r)) => {
+                        if args.len() != 2 {
+                            return throw("type error: * failed to destructure");
+                        }
+                        let quot = |r: &num::BigInt, a: &num::BigInt| -> R<V> {
+                            if a.is_zero() {
+                                return throw("value error: * destructured with a zero factor");
+                            }
+                            if !(r % a).is_zero() {
+                                return throw("value error: * had remainder");
+                            }
+                            Ok(V::Int(num::Integer::div_floor(r, a)))
+                        };
+                        match (&args[0], &args[1]) {
+                            (ELv::Lit(V::Int(a)), b) if !matches!(b, ELv::Lit(_)) => vec![V::Int(a.clone()), quot(r, a)?],
+                            (a, ELv::Lit(V::Int(b))) if !matches!(a, ELv::Lit(_)) => vec![quot(r, b)?, V::Int(b.clone())],
+                            (ELv::Lit(_), ELv::Lit(_)) => return throw("type error: * failed to destructure"),
+                            (ELv::Lit(_), _) | (_, ELv::Lit(_)) => return unknown("* destructure with non-int literal"),
+                            _ => return throw("type error: * failed to destructure"),
+                        }
+                    }
+                    ("*", x) if is_num(x) => return unknown("* destructure of non-int"),
+                    ("*", _) => return throw("type error: * failed to destructure"),
                     ("-", _) => {
                         if args.len() != 1 {
                             return throw("type error: - can only destructure 1");
